@@ -75,7 +75,7 @@ check(
 check(
     "C09",
     "exploration",
-    "Four layers on the real XL_BOMD/KSA_XL_BOMD objects. Recurrence: the real integrator step (real coefficient window and history-slot arithmetic) driven with synthetic densities on a frozen geometry; fixed point to round-off and bounded, non-growing response to a perturbation injected at every buffer phase, for every k in 3..9, every phase, a gamma grid and both variants - the k x phase space is enumerated completely in every run. Restart: crash+resume at every buffer phase must continue exactly (density and transition-density history made visible in the files; plain, Krylov, damped, excited-state XL-BOMD and XL-ESMD). Reuse: a driver object used before starts its second run like a new one. Consistency: real SEQM, XL energy/forces at P = converged D equal the SCF ones (plain, Krylov rank 1-4, T_el <= 1500 K) and do not depend on zero-padded batch mates (T_el up to 8000 K). Scaling: real SEQM shadow-energy fluctuation ~ dt^2, no drift, convergence to the BOMD trajectory (ground state; XL-ESMD and excited-state XL-BOMD against excited-state BOMD).",
+    "Four layers on the real XL_BOMD/KSA_XL_BOMD objects. Recurrence: the real integrator step (real coefficient window and history-slot arithmetic) driven with synthetic densities on a frozen geometry; fixed point to round-off and bounded, non-growing response to a perturbation injected at every buffer phase, for every k in 3..9, every phase, a gamma grid and both variants - the k x phase space is enumerated completely in every run. Restart: crash+resume at every buffer phase must continue exactly (density and transition-density history made visible in the files; plain, Krylov, damped, excited-state XL-BOMD and XL-ESMD). Reuse: a driver object used before starts its second run like a new one. Consistency: real SEQM, XL energy/forces at P = converged D equal the SCF ones (plain, Krylov rank 1-4, T_el <= 1500 K; also after the history SCF at R0 - atoms moved - XL at R1 on the same objects, with a geometry-dependent learned_parameters callable and a pair crossing a finite cutoff) and do not depend on zero-padded batch mates (T_el up to 8000 K). Scaling: real SEQM shadow-energy fluctuation ~ dt^2, no drift, convergence to the BOMD trajectory (ground state; XL-ESMD and excited-state XL-BOMD against excited-state BOMD).",
     "Stability is sampled over a response grid (not a root-locus proof). Frozen bounds: amplification <= 2, growth <= 1.05, fixed point 1e-12. Above 1500 K thermal occupations legitimately move the XL energy off the zero-temperature SCF one; only batch independence is decided there. Committed known finding: production XL-ESMD on excited states above the first (matched by engine and active state in the scaling layer; one pinned family per run).",
     "deterministic simulation: real XL-BOMD step driven by a stub density response over the complete k x buffer-phase grid, crash/restart at every phase, plus seeded real-driver families",
     "mdsim",
@@ -105,7 +105,7 @@ check(
 check(
     "C20",
     "exploration",
-    "The real Geometry_Optimization_SD.run/onestep with a forward hook on its driver recording every evaluation (geometry, energy, forces). Trace oracles: energy never rises for step factors <= 1/L; each evaluation is at x + alpha F of the previous one; padding atoms never move; the run stops exactly at the first evaluation whose largest force component is <= tol or at the cap; the printed verdict says which; returned (max force, dE) and molecule.Etot/force are those of the last evaluation; a molecule's path does not depend on its batch mates (solo twin); a faulted carried density between evaluations does not change the path beyond the SCF threshold.",
+    "The real Geometry_Optimization_SD.run/onestep with a forward hook on its driver recording every evaluation (geometry, energy, forces). Trace oracles: energy never rises for step factors <= 1/L; each evaluation is at x + alpha F of the previous one; padding atoms never move; the run stops exactly at the first evaluation whose largest force component is <= tol or at the cap (incl. starts next to a saddle point, where a member's force dips below the tolerance and rises again); the printed verdict says which; returned (max force, dE) and molecule.Etot/force are those of the last evaluation; a molecule's path does not depend on its batch mates (solo twin); a faulted carried density between evaluations does not change the path beyond the SCF threshold.",
     "'Sufficiently small' is made precise from a crude curvature bound of the stub potential; real SEQM uses alpha <= 0.005.",
     "deterministic simulation: stateful optimiser stepped under an observing seam, trace oracles, seeded configurations incl. caps hit before convergence and carried-density faults",
     "mdsim",
@@ -115,8 +115,8 @@ check(
 check(
     "C03",
     "exploration",
-    "SCF sessions: a batch (neutral, cations, anions, doublets, triplets, zero-padded mixtures) followed through a seeded history of MOVE / SOLVE(solver x SP2 x eps x RHF/UHF, cold or carried start, iteration cap) / FAULT(noise, scaling, de-idempotisation, stale, asymmetric) operations on the carried density. Liveness: every solve runs under a line-event clock over seqm/ frames (bounded liveness in simulated time, replayable; non-termination is reported with the file:line where the clock ran out). Safety: for every molecule flagged converged, symmetry, trace, charge sum, idempotency, commutator with the Fock matrix rebuilt from the returned density, an independent re-diagonalisation and the energy functional are within K x tau.",
-    "Residuals use the repository's Fock builder (operator correctness is C06, not applicable) and an independent eigh. K frozen at >= 10 x the worst calibrated value: detects wrong/unconverged answers, not small regressions. Pool of 18 species; PM6 d-orbitals and GPU not reached.",
+    "SCF sessions: a batch (neutral, cations, anions, doublets, triplets, zero-padded mixtures) followed through a seeded history of MOVE / SOLVE(solver incl. the Krylov solver x SP2 x eps x RHF/UHF x scf_backward 0/1/2, AM1/PM3/MNDO and PM6 with d orbitals, cold or carried start, iteration cap) / FAULT(noise, scaling, de-idempotisation, stale, asymmetric) operations on the carried density. Liveness: every solve runs under a line-event clock over seqm/ frames (bounded liveness in simulated time, replayable; non-termination is reported with the file:line where the clock ran out). Safety: for every molecule flagged converged, symmetry, trace, charge sum, idempotency, commutator with the Fock matrix rebuilt from the returned density, an independent re-diagonalisation and the energy functional are within K x tau.",
+    "Residuals use the repository's Fock builder (operator correctness is C06, not applicable) and an independent eigh. K frozen at >= 10 x the worst calibrated value: detects wrong/unconverged answers, not small regressions. Pool of 21 species (first row, H2S/HCl/SiH4, ions, radicals); PM6 with d orbitals restricted only; the Krylov solver is checked where gap/(2 kB T_el) > 25 and not combined with H2 / full-shell atoms (outside its domain); GPU not reached.",
     "deterministic simulation: seeded operation/fault histories on carried solver state, iteration caps as knobs, simulated-time liveness clock (sys.settrace line events)",
     "scfsim",
     "DESIGN.md section 5 (C03)",
@@ -125,7 +125,7 @@ check(
 check(
     "C04",
     "exploration",
-    "The same SCF sessions restricted to near-equilibrium closed-shell molecules with gap > 2 eV: the density handed to a solve comes from the previous geometry, another solver, an RHF<->UHF-singlet switch or a faulted density, in any order. Every converged solve is compared (energy, forces, charges, orbital energies) with a reference solve of the same geometry (cold, diagonalisation, adaptive->Pulay, eps 1e-11) within K x tau; tightening chains (eps, eps/100, eps/1e4 from the same start) must not move away from the limit.",
+    "The same SCF sessions restricted to near-equilibrium closed-shell molecules with gap > 2 eV: the density handed to a solve comes from the previous geometry, another solver (fixed/adaptive mixing, Pulay, Krylov; SP2 or diagonalisation; implicit or unrolled differentiable variants; PM6 with d orbitals), an RHF<->UHF-singlet switch or a faulted density, in any order. A generated path that raises where the reference path succeeds is a violation (path-fails). Every converged solve is compared (energy, forces, charges, orbital energies) with a reference solve of the same geometry (cold, diagonalisation, adaptive->Pulay, eps 1e-11) within K x tau; tightening chains (eps, eps/100, eps/1e4 from the same start) must not move away from the limit.",
     "Cross-solver agreement within one code base, not absolute correctness. Bounds are an order of magnitude above what the code achieves.",
     "deterministic simulation: seeded solver-path/start-density histories compared against a fixed reference path",
     "scfsim",
